@@ -3,6 +3,7 @@
 package harness
 
 import (
+	"os"
 	"encoding/json"
 	"fmt"
 	"sort"
@@ -122,3 +123,18 @@ type resultJSON struct {
 }
 
 func simrtCurrent() *simrt.Run { return simrt.Current() }
+
+// SimProxy is the address of a web proxy that the simulated user's environment names in
+// HTTP_PROXY / HTTPS_PROXY (a common desktop and CI configuration). It is in no target set, so
+// any probe that is sent there instead of to its target is a confinement violation. net/http
+// reads these variables once per process, hence they are set before anything else runs.
+const SimProxy = "203.0.113.77:3128"
+
+func init() {
+	for _, k := range []string{"HTTP_PROXY", "http_proxy", "HTTPS_PROXY", "https_proxy"} {
+		os.Setenv(k, "http://"+SimProxy)
+	}
+	for _, k := range []string{"NO_PROXY", "no_proxy", "REQUEST_METHOD", "ALL_PROXY", "all_proxy"} {
+		os.Unsetenv(k)
+	}
+}
